@@ -166,9 +166,26 @@ def array_model(obj, dtype=None, *a, **k):
     return _np.array(obj, dtype=dtype, *a, **k) if dtype is not None else _np.array(obj, *a, **k)
 
 
+class SymArray(_np.ndarray):
+    """Object array standing in for a float array: storing a *non-scalar* into a single element is delegated to
+    NumPy's own rule for float arrays (NumPy 2 refuses `a[i] = array([v])` with "setting an array element with a
+    sequence"), so that this class of failure is reproduced rather than hidden by the object dtype."""
+    def __setitem__(self, key, value):
+        if isinstance(value, _np.ndarray) and value.ndim >= 1:
+            try:
+                single = _np.ndim(_np.ndarray.__getitem__(self, key)) == 0
+            except Exception:
+                single = False
+            if single:
+                probe = _np.zeros(1)
+                probe[0] = _np.zeros(value.shape)   # NumPy decides (raises ValueError for a sequence)
+                value = value.reshape(-1)[0]
+        _np.ndarray.__setitem__(self, key, value)
+
+
 def zeros_model(shape, dtype=None, *a, **k):
-    """np.zeros that can hold symbolic entries (object array of exact 0)."""
-    out = _np.empty(shape, dtype=object)
+    """np.zeros that can hold symbolic entries (object array of exact 0) with float-array assignment rules."""
+    out = _np.empty(shape, dtype=object).view(SymArray)
     out.fill(0)
     return out
 
